@@ -211,6 +211,8 @@ class Data:
             c["K"] = self.K
             c["force2d"] = bool(self.cfg.get("force2d"))
         c["wform"] = self.wform
+        if self.cfg.get("wdtype"):
+            c["wdtype"] = self.cfg["wdtype"]
         if self.wform in ("array", "pair"):
             c["w"] = enc([ev(t) for t in self.wt])
             c["wvalid"] = [ev(b) for b in self.wvalid]
